@@ -1046,6 +1046,9 @@ def seq_families():
         ('RNabs', 'HCI_Remote_Name_Request_Command', {'bd_addr': A(ABSENT)}),
         ('RSF', 'HCI_Read_Remote_Supported_Features_Command', {'connection_handle': '@acl'}),
         ('REF', 'HCI_Read_Remote_Extended_Features_Command', {'connection_handle': '@acl', 'page_number': 1}),
+        ('REF0', 'HCI_Read_Remote_Extended_Features_Command', {'connection_handle': '@acl', 'page_number': 0}),
+        ('REF4', 'HCI_Read_Remote_Extended_Features_Command', {'connection_handle': '@acl', 'page_number': 4}),
+        ('REF255', 'HCI_Read_Remote_Extended_Features_Command', {'connection_handle': '@acl', 'page_number': 255}),
         ('RVI', 'HCI_Read_Remote_Version_Information_Command', {'connection_handle': '@acl'}),
         ('RCO', 'HCI_Read_Clock_Offset_Command', {'connection_handle': '@acl'}),
     ]
